@@ -453,6 +453,9 @@ pub struct Record {
     pub done: Option<u64>,
     /// the peer closed / reset while the request was unanswered
     pub peer_gone: bool,
+    /// a validating endpoint ([`Collector::set_validator`]) found the request malformed and answered
+    /// 400 / grpc-status 3 instead of the scripted acknowledgement (`decision` says so too)
+    pub rejected: Option<String>,
 }
 
 impl Record {
@@ -500,7 +503,7 @@ impl Record {
             "decision": self.decision.name(), "wire_len": self.wire_len, "gzip": self.gzip,
             "body_len": self.body.as_ref().map(|b| b.len()), "note": self.note, "io_note": self.io_note,
             "received": self.received, "responding": self.responding, "responded": self.responded, "partial_written": self.partial_written, "done": self.done,
-            "peer_gone": self.peer_gone,
+            "peer_gone": self.peer_gone, "rejected": self.rejected,
         })
     }
 }
@@ -680,6 +683,177 @@ pub fn decode_json(sig: Signal, body: &[u8]) -> Result<Vec<Item>, String> {
     Ok(out)
 }
 
+// ---------------------------------------------------------------------------
+// validation (what a real collector does before it acknowledges)
+// ---------------------------------------------------------------------------
+
+fn pb_varint(b: &[u8], at: &mut usize) -> Option<u64> {
+    let mut v = 0u64;
+    for shift in (0..64).step_by(7) {
+        let byte = *b.get(*at)?;
+        *at += 1;
+        v |= ((byte & 0x7f) as u64) << shift;
+        if byte & 0x80 == 0 {
+            return Some(v);
+        }
+    }
+    None
+}
+
+/// The top-level fields of one protobuf message: (field number, payload of a LEN field / empty otherwise).
+/// `None` = not a well-formed sequence of fields.
+fn pb_fields(b: &[u8]) -> Option<Vec<(u64, &[u8])>> {
+    let mut at = 0;
+    let mut out = Vec::new();
+    while at < b.len() {
+        let key = pb_varint(b, &mut at)?;
+        let (field, wt) = (key >> 3, key & 7);
+        match wt {
+            0 => {
+                pb_varint(b, &mut at)?;
+                out.push((field, &b[0..0]));
+            }
+            1 => {
+                at = at.checked_add(8).filter(|e| *e <= b.len())?;
+                out.push((field, &b[0..0]));
+            }
+            5 => {
+                at = at.checked_add(4).filter(|e| *e <= b.len())?;
+                out.push((field, &b[0..0]));
+            }
+            2 => {
+                let len = pb_varint(b, &mut at)? as usize;
+                let end = at.checked_add(len).filter(|e| *e <= b.len())?;
+                out.push((field, &b[at..end]));
+                at = end;
+            }
+            _ => return None,
+        }
+    }
+    Some(out)
+}
+
+fn resource_keys_proto(res: &pb::resource::v1::Resource) -> Vec<String> {
+    res.attributes.iter().map(|kv| kv.key.clone()).collect()
+}
+
+/// Validate one export request the way a real collector does for the content type of the request:
+/// `application/json` bodies must parse as the JSON object of the endpoint's signal, everything else must
+/// decode as its protobuf message - INCLUDING the `resource` of every `Resource*` element, which must be a
+/// Resource in that same encoding and carry an attribute for each of `resource_keys`.
+/// `Err` starts with `resource:` when the envelope around the resource is fine and only the resource part is
+/// not, with `body:` otherwise.
+pub fn validate_export_request(rec: &Record, resource_keys: &[String]) -> Result<(), String> {
+    use prost::Message;
+    let body = rec.body.as_ref().ok_or_else(|| "body: not read".to_string())?;
+    if let Some(n) = &rec.note {
+        return Err(format!("body: {}", n));
+    }
+    let sig = rec.path_signal().ok_or_else(|| format!("body: unknown path {:?}", rec.path))?;
+    let (top_key, scope_key) = match sig {
+        Signal::Logs => ("resourceLogs", "scopeLogs"),
+        Signal::Traces => ("resourceSpans", "scopeSpans"),
+        Signal::Metrics => ("resourceMetrics", "scopeMetrics"),
+    };
+    let check_keys = |have: &[String]| -> Result<(), String> {
+        for k in resource_keys {
+            if !have.iter().any(|h| h == k) {
+                return Err(format!("resource: attribute {:?} is missing (attributes present: {:?})", k, have));
+            }
+        }
+        Ok(())
+    };
+    if rec.is_json() {
+        let parsed: Result<vcommon::Json, _> = serde_json::from_slice(body);
+        let v = match parsed {
+            Ok(v) => v,
+            Err(e) => {
+                // is it only the resource part? cut `"resource":<...>,"scope*"` out and try again
+                let open = format!("\"resource\":");
+                let close = format!(",\"{}\"", scope_key);
+                if let (Some(a), Some(b)) = (find(body, open.as_bytes()), find(body, close.as_bytes())) {
+                    if a < b {
+                        let mut cut = body[..a + open.len()].to_vec();
+                        cut.extend_from_slice(b"{}");
+                        cut.extend_from_slice(&body[b..]);
+                        if serde_json::from_slice::<vcommon::Json>(&cut).is_ok() {
+                            let part = &body[a + open.len()..b];
+                            return Err(format!("resource: the JSON request parses only without its resource, which is {} bytes that are not JSON ({}): {}", part.len(), e, vcommon::show_bytes(&part[..part.len().min(48)])));
+                        }
+                    }
+                }
+                return Err(format!("body: not JSON: {}", e));
+            }
+        };
+        let top = v.get(top_key).and_then(|a| a.as_array()).ok_or_else(|| format!("body: JSON object without a {} array", top_key))?;
+        for el in top {
+            if el.get(scope_key).and_then(|a| a.as_array()).is_none() {
+                return Err(format!("body: a {} element has no {} array", top_key, scope_key));
+            }
+            match el.get("resource") {
+                None | Some(vcommon::Json::Null) => check_keys(&[])?,
+                Some(res) => {
+                    let attrs = match res.get("attributes") {
+                        None => Vec::new(),
+                        Some(a) => a.as_array().ok_or_else(|| "resource: attributes is not an array".to_string())?.clone(),
+                    };
+                    if !res.is_object() {
+                        return Err(format!("resource: not a JSON object: {}", res));
+                    }
+                    let mut have = Vec::new();
+                    for kv in &attrs {
+                        let k = kv.get("key").and_then(|k| k.as_str()).ok_or_else(|| format!("resource: attribute without a string key: {}", kv))?;
+                        if !kv.get("value").map(|v| v.is_object()).unwrap_or(false) {
+                            return Err(format!("resource: attribute {:?} without an AnyValue object", k));
+                        }
+                        have.push(k.to_string());
+                    }
+                    check_keys(&have)?;
+                }
+            }
+        }
+        Ok(())
+    } else {
+        // the envelope by hand, so that a bad resource can be told from a bad request
+        let envelope = pb_fields(body).and_then(|top| {
+            let mut resources: Vec<Option<&[u8]>> = Vec::new();
+            for (f, payload) in top {
+                if f == 1 {
+                    let inner = pb_fields(payload)?;
+                    resources.push(inner.iter().find(|(f, _)| *f == 1).map(|(_, p)| *p));
+                }
+            }
+            Some(resources)
+        });
+        let whole = match sig {
+            Signal::Logs => pb::collector::logs::v1::ExportLogsServiceRequest::decode(&body[..]).map(|_| ()),
+            Signal::Traces => pb::collector::trace::v1::ExportTraceServiceRequest::decode(&body[..]).map(|_| ()),
+            Signal::Metrics => pb::collector::metrics::v1::ExportMetricsServiceRequest::decode(&body[..]).map(|_| ()),
+        };
+        match envelope {
+            Some(resources) => {
+                for res in resources {
+                    match res {
+                        None => check_keys(&[])?,
+                        Some(bytes) => match pb::resource::v1::Resource::decode(bytes) {
+                            Ok(r) => {
+                                // field 1 = attributes, 2 = dropped_attributes_count: anything else is not a Resource
+                                if pb_fields(bytes).map(|fs| fs.iter().any(|(f, _)| *f == 0 || *f > 3)).unwrap_or(true) {
+                                    return Err(format!("resource: {} bytes that are not a protobuf Resource: {}", bytes.len(), vcommon::show_bytes(&bytes[..bytes.len().min(48)])));
+                                }
+                                check_keys(&resource_keys_proto(&r))?
+                            }
+                            Err(e) => return Err(format!("resource: {} bytes that do not decode as a protobuf Resource ({}): {}", bytes.len(), e, vcommon::show_bytes(&bytes[..bytes.len().min(48)]))),
+                        },
+                    }
+                }
+                whole.map_err(|e| format!("body: prost: {}", e))
+            }
+            None => Err(format!("body: not a protobuf message{}", whole.err().map(|e| format!(" (prost: {})", e)).unwrap_or_default())),
+        }
+    }
+}
+
 fn gunzip(data: &[u8]) -> Result<Vec<u8>, String> {
     let mut out = Vec::with_capacity(data.len() * 2);
     flate2::read::GzDecoder::new(data).read_to_end(&mut out).map_err(|e| format!("gzip: {}", e))?;
@@ -747,9 +921,35 @@ struct Endpoint {
     /// the bound socket while it is not listening yet
     bound: Mutex<Option<OwnedFd>>,
     script: Mutex<ScriptState>,
+    /// when set, a request that was about to be acknowledged is validated first
+    validator: Mutex<Option<Validator>>,
 }
 
+/// Decides whether a completely read request is well formed (`Err` = why not).
+pub type Validator = Arc<dyn Fn(&Record) -> Result<(), String> + Send + Sync>;
+
 impl Endpoint {
+    /// A validating endpoint answers a malformed request like a real collector: 400 (HTTP) /
+    /// grpc-status 3 INVALID_ARGUMENT, instead of the scripted acknowledgement.
+    fn validated(&self, shared: &Shared, idx: usize, d: Decision) -> Decision {
+        if !matches!(d, Decision::Ack(_) | Decision::HoldAck(_) | Decision::DelayAck(_)) {
+            return d;
+        }
+        let Some(v) = self.validator.lock().unwrap().clone() else { return d };
+        let rec = shared.log.lock().unwrap().records[idx].clone();
+        match v(&rec) {
+            Ok(()) => d,
+            Err(e) => {
+                let nd = if self.wire == Wire::Grpc { Decision::GrpcStatus(3, GrpcForm::TrailersOnly) } else { Decision::Status(400) };
+                shared.update(idx, |r| {
+                    r.decision = nd;
+                    r.rejected = Some(e);
+                });
+                nd
+            }
+        }
+    }
+
     fn next_decision(&self, new_connection: bool) -> (usize, Decision) {
         let mut s = self.script.lock().unwrap();
         let mut d = match s.repeat {
@@ -856,6 +1056,7 @@ impl Shared {
                 partial_written: None,
                 done: None,
                 peer_gone: false,
+                rejected: None,
             });
             idx
         };
@@ -924,6 +1125,7 @@ impl Collector {
                 port,
                 bound: Mutex::new(Some(fd)),
                 script: Mutex::new(ScriptState { repeat: None, script: cfg.script.into(), seq: 0, consumed_faults: 0 }),
+                validator: Mutex::new(None),
             }));
             if cfg.listen {
                 Self::listen_on(&shared, endpoints.last().unwrap());
@@ -971,6 +1173,13 @@ impl Collector {
     }
 
     /// While `Some`, every request on this endpoint gets that decision (the script is kept for later).
+    /// Make the endpoint of `s` validate every request it was about to acknowledge.
+    pub fn set_validator(&self, s: Signal, v: Validator) {
+        if let Some(ep) = self.endpoint(s) {
+            *ep.validator.lock().unwrap() = Some(v);
+        }
+    }
+
     pub fn set_repeat(&self, s: Signal, d: Option<Decision>) {
         if let Some(ep) = self.endpoint(s) {
             ep.script.lock().unwrap().repeat = d;
@@ -1202,6 +1411,7 @@ async fn serve_http1(shared: Arc<Shared>, ep: Arc<Endpoint>, mut stream: TcpStre
             r.body = Some(Arc::new(body));
             r.body_read = Some(stamp());
         });
+        let decision = ep.validated(&shared, idx, decision);
 
         // ---- decision ----
         let code = match decision {
@@ -1454,6 +1664,7 @@ async fn handle_h2(
         r.body = Some(Arc::new(msg));
         r.body_read = Some(stamp());
     });
+    let decision = ep.validated(&shared, idx, decision);
 
     let grpc_response = |status: http::StatusCode| http::Response::builder().status(status).header("content-type", "application/grpc").body(()).unwrap();
     let result: Result<(), h2::Error> = match decision {
